@@ -209,8 +209,11 @@ class Gen:
                         q.append({"k": "bc", "out": bb, "a": {"m": m}})
                     q.append({"k": "var", "out": v, "a": {"m": m, "val": self.vdesc(), "bc": bb}})
                 else:
-                    q.append({"k": "var", "out": v, "outb": self.fresh("b"),
-                              "a": {"m": m, "val": self.vdesc(), "ghosts": True, "bc": b}})
+                    a = {"m": m, "val": self.vdesc(), "ghosts": True, "bc": b}
+                    if self.sw["palette"] == "ints" and rng.random() < 0.6:
+                        a["val"] = {"d": "ints", "lo": -2, "hi": 2, "s": self.seed()}
+                        a["dtype"] = "int"
+                    q.append({"k": "var", "out": v, "outb": self.fresh("b"), "a": a})
             q.append({"k": "face", "out": self.fresh("f"),
                       "a": {"m": m, "scalar": self.r(0.5, 2.0, 2)}})
         kinds = [k for k, wt in self.sw["weights"].items() if wt > 0]
@@ -304,10 +307,14 @@ class LoopBase(Task):
         self.terms = {}      # role -> term name
         self.D = None
         self.iters = 0
+        self.dt = g.r(0.05, 2.0, 3)      # a time loop normally keeps its step size
+        self.alpha = None                # and its storage coefficient (scalar or field)
 
     def protected(self):
         s = {self.v} if self.v else set()
         s |= set(self.terms.values())
+        if isinstance(self.alpha, str):
+            s.add(self.alpha)
         if self.D:
             s.add(self.D)
         return s
@@ -391,15 +398,32 @@ class LoopBase(Task):
         g = self.g
         rng = g.rng
         t = g.fresh("t")
-        alpha = g.r(0.5, 3.0, 2)
-        if rng.random() < 0.3:
-            m = m or g.mesh_of(v)
-            cand = g.pick("v", lambda e: e.meta["mesh"] == m)
-            if cand:
-                alpha = cand
+        m = m or g.mesh_of(v)
+        stale = isinstance(self.alpha, str) and (
+            self.alpha not in g.w.ents or g.w.ents[self.alpha].meta["mesh"] != m)
+        if self.alpha is None or stale or rng.random() < 0.1:
+            self.alpha = g.r(0.5, 3.0, 2)
+            if rng.random() < 0.4:
+                cand = g.pick("v", lambda e: e.meta["mesh"] == m and e.name != v)
+                if cand:
+                    self.alpha = cand
+        if rng.random() < 0.15:
+            self.dt = g.r(0.05, 2.0, 3)
         self.terms["trans"] = t
         return {"k": "build", "out": t,
-                "a": {"fn": "transientTerm", "args": [v, g.r(0.05, 2.0, 3), alpha]}}
+                "a": {"fn": "transientTerm", "args": [v, self.dt, self.alpha]}}
+
+    def alpha_tick(self, ops):
+        """The storage coefficient field changes in place between steps."""
+        g = self.g
+        if isinstance(self.alpha, str) and self.alpha in g.w.ents and g.rng.random() < 0.35:
+            how = g.rng.choice(("assign", "imul", "slice"))
+            a = {"v": self.alpha, "how": how, "sl": g.slspec(3)}
+            if how == "imul":
+                a["k"] = g.r(1.2, 2.0, 2)
+            else:
+                a["val"] = {"d": "rand", "lo": 0.5, "hi": 3.0, "s": g.seed()}
+            ops.append({"k": "val_edit", "a": a})
 
     def bc_tick(self, ops):
         """A time-dependent boundary coefficient updated between steps."""
@@ -421,6 +445,7 @@ class ImplicitLoop(LoopBase):
         ops = []
         self.spatial_plan(ops)
         self.bc_tick(ops)
+        self.alpha_tick(ops)
         if "trans" not in self.terms or self.terms["trans"] not in g.w.ents \
                 or g.rng.random() < 0.85:
             ops.append(self.transient_op(self.v))
@@ -663,6 +688,9 @@ class Cloner(Task):
                 a = {"m": m, "val": g.vdesc(), "bc": b}
                 if rng.random() < 0.15:
                     a["ghosts"] = True
+                if g.sw["palette"] == "ints" and rng.random() < 0.5:
+                    a["val"] = {"d": "ints", "lo": -2, "hi": 2, "s": g.seed()}
+                    a["dtype"] = "int"
                 if rng.random() < 0.2:
                     a["scalar"] = True
                     a["val"] = {"d": "const", "x": g.r(0.5, 3.0, 2)}
